@@ -39,6 +39,14 @@ NOTES = {
  "C17-seed4": "caught by C17 as it stood (complete enumeration of all 16384 columns)",
  "C19-seed4": "missed by C19 as it stood (exit 0: only finite numbers were formatted); caught since every case of the families space starts with a prelude of NaN / inf / non-numeric values under percent and decimal patterns",
  "C20-seed4": "caught by C20 as it stood (special value dquote / apos at the end of a value)",
+ "C01-seed4": "missed by C01 and C03 as they stood (no cell got a text FIRST and a formula afterwards, which is what makes the writer emit <v></v>); caught since the value alphabet has text-then-formula cells (\"\", \" \", 007, abc) - pairs space, same row",
+ "C07-seed4": "caught by C07 as it stood (columns first touched right-to-left in the seeded states)",
+ "C10-seed4": "caught by C10 as it stood",
+ "C11-seed4": "missed by C11's quick tier as it stood (needs a loaded string table with duplicate <si> entries; the only such corpus file, aaa.xlsx, is thorough-tier); caught since the generator family `multi` (several sheets over one table with duplicate and unused entries) feeds C11 as `foreign:` initial files (and C03)",
+ "C12-seed4": "caught by C12 as it stood (foreign-string after saving another workbook on the same thread)",
+ "C14-seed4": "caught by C14 as it stood (package sizes around the 16-byte block and 4096-byte segment boundaries)",
+ "C15-seed4": "caught by C15 as it stood (shorter password after a longer one: descending pass and mixed-length alphabet)",
+ "C18-seed4": "missed by C18 and C19 as they stood (every date code had one section); caught since two conditional two-section codes ([<1]h:mm:ss;yyyy-mm-dd ...) are displayed for dates after a prelude that shows times of day under the same codes",
  "C09-seed2": "caught by C09 as it stood (translate clause: a reference leaving the grid followed by another reference) and by C03 (shared-edge family)",
 
  "C11-seed1": "missed by the check as it stood when the seed arrived (exit 0: no operation of the alphabet made a materialised sheet need a NEW numbered dependent part); caught after the edit operation also adds a comment (clause saved-content-equals-eager, the unloaded sheet's comments are replaced)",
